@@ -41,6 +41,9 @@ def tree_scopes(tier, updates=1, ro=1, fill=1, growth=True, logs=True, rnd=True)
             S("tree", type="T32u32u16", mode="bfs", slots=3, cap=3, max_slots=4, keys=keys(5), updates=0, ro=ro, fill=fill),
             S("tree", type="T8u8u8", mode="bfs", slots=1, cap=1, max_slots=3, keys=keys(4), updates=1, ro=ro, fill=fill),
             S("tree", type="T32u8u8", mode="bfs", slots=3, cap=1, max_slots=3, keys=keys(4), updates=0, ro=ro, fill=fill),
+            # growth of a header-only buffer (capacity 0)
+            S("tree", type="T8u8u8", mode="bfs", slots=0, cap=0, max_slots=2, keys=keys(3), updates=0, ro=ro, fill=fill),
+            S("tree", type="T32u8u8", mode="bfs", slots=0, cap=0, max_slots=2, keys=keys(3), updates=0, ro=ro, fill=fill),
         ]
     if logs:
         q += [
